@@ -117,4 +117,125 @@ Proof.
     destruct H2 as (T2 & J2). split; auto. eapply steps_trans; eauto.
 Qed.
 
+
+Lemma set_tail_form s n h hd : nb s n = Found h -> headp s = Some hd -> (h_height hd <? n) = false ->
+  set_tail s n = (write (write (set_tailp s (Some h)) [WPutTail (h_id h)]) [WPutHead (h_id hd)], true).
+Proof.
+  intros Hnb Hhd Hlt. unfold set_tail. rewrite Hnb. cbv zeta.
+  destruct (write_frame (set_tailp s (Some h)) [WPutTail (h_id h)]) as (_ & _ & W3 & _).
+  rewrite W3. cbn [headp set_tailp]. rewrite Hhd, Hlt. unfold put_head_ptr.
+  rewrite W3. cbn [headp set_tailp]. rewrite Hhd. reflexivity.
+Qed.
+
+Lemma set_head_form s n h tl : nb s n = Found h -> tailp s = Some tl ->
+  set_head s n = (write (write (set_hsh (set_headp s (Some h)) (h_height h)) [WPutHead (h_id h)]) [WPutTail (h_id tl)], true).
+Proof.
+  intros Hnb Htl. unfold set_head. rewrite Hnb. unfold put_tail_ptr.
+  destruct (write_frame (set_hsh (set_headp s (Some h)) (h_height h)) [WPutHead (h_id h)]) as (_ & _ & _ & W4 & _).
+  rewrite W4. cbn [tailp set_hsh set_headp]. rewrite Htl. reflexivity.
+Qed.
+
+Lemma delete_seq_pend_empty script nh : forall cnt s n log, pend_h s = ∅ ->
+  pend_h (fst (fst (fst (delete_seq s script nh n cnt log)))) = ∅.
+Proof.
+  induction cnt as [|cnt IH]; intros s n log Hp; cbn [delete_seq fst]; auto.
+  assert (H1 : pend_h (fst (fst (delete_single s script nh n log))) = ∅).
+  { unfold delete_single. destruct (match d_idx s !! n with Some id => Some id | None => _ end); auto.
+    destruct (run_handlers s script 0 nh n log) as [l ok]. destruct ok; cbn [fst]; auto.
+    cbn. rewrite Hp. apply delete_empty. }
+  destruct (delete_single s script nh n log) as [[s1 l1] ok1]. cbn [fst] in H1.
+  destruct ok1; cbn [fst]; auto.
+Qed.
+
+(** the flush closure *)
+Lemma flush_one_steps_ps s o sp' : ptrs_sound s -> inv (fst (flush_one s o)) sp' ->
+  steps ptrs_sound s (fst (flush_one s o)).
+Proof.
+  intros Ps. unfold flush_one. cbv zeta.
+  set (s3 := recede_tail _).
+  assert (Ms : mem_step s s3).
+  { unfold s3. eapply mem_trans; [apply mem_ensure_init|]. eapply mem_trans; [apply mem_pend_add|].
+    eapply mem_trans; [apply mem_advance_head|apply mem_recede_tail]. }
+  destruct (_ && _); cbn [fst]; [intros _; apply steps_mem1; auto|].
+  destruct (_ =? _)%nat; cbn [fst]; [intros _; apply steps_mem1; auto|].
+  intros I'. eapply st_mem; [exact Ms|]. eapply st_write; [|apply steps_mem1, mem_set_pend].
+  apply (ps_disk_pred (set_pend (write s3 (commit_ops s3)) ∅ ∅)); [unfold disk_eq; cbn; tauto|].
+  apply (inv_ptrs_sound _ sp' I'). reflexivity.
+Qed.
+
+
+(** once the old Tail header is gone the Tail pointer does not resolve any more *)
+Definition Jt (T : N) (x : st) : Prop := d_tail x = Some (h_id (c T)) /\ ~ on_disk x T.
+(** the Head pointer sits below everything that gets deleted *)
+Definition Jh (K : N) (x : st) : Prop := d_head x = Some (h_id (c K)) /\ ptrs_sound x.
+
+Lemma Jt_disk T : disk_pred (Jt T).
+Proof. intros a a' (E1 & _ & _ & E4) [A B]. unfold Jt, on_disk in *. rewrite <- E1, <- E4. auto. Qed.
+Lemma Jh_disk K : disk_pred (Jh K).
+Proof. intros a a' E [A B]. split; [destruct E as (_ & _ & E3 & _); congruence|apply (ps_disk_pred a); auto]. Qed.
+
+Lemma Jh_del_hdr K x m : inr K -> K < m -> inr m -> Jh K x -> Jh K (write x [WDelH (h_id (c m))]).
+Proof.
+  intros HK Hm Hi [A B]. split; [exact A|].
+  intros T H Et Eh HT HH OT OH. apply on_disk_del_hdr in OT, OH. destruct OT as [OT _], OH as [OH _].
+  cbn in Et, Eh. assert (H = K).
+  { rewrite A in Eh. injection Eh as Eh. symmetry. apply (@ch_inj c U CH); auto. }
+  subst H. destruct (B T K Et Eh HT HH OT OH) as [Hle Hall]. split; auto.
+  intros n Hn. apply on_disk_del_hdr. split; auto.
+  intros E. apply (@ch_inj c U CH) in E; auto; [lia|]. destruct HT, HK. split; lia.
+Qed.
+
+(** the tail end: the first stored height is the old Tail itself *)
+Lemma tail_loop_steps s sp T H fails nh cnt : inv s sp -> pend_h s = ∅ -> sHT sp = Some (T, H) ->
+  let '(s1, _, a, _) := delete_seq s (script_of fails) nh T (S cnt) [] in
+  steps ptrs_sound s s1 /\ (s1 = s \/ Jt T s1).
+Proof.
+  intros I Hp EHT. pose proof (proj1 I) as [M HS P]. unfold ptrs_core in P. rewrite EHT in P.
+  destruct P as (P1 & P2 & P3 & P4 & P5 & P6 & P7).
+  destruct (inv_TH s sp T H (proj1 I) EHT) as (HT & HH & _).
+  assert (PC : pchain c U s) by (apply pstored_pchain; auto; eapply inv_pstored; eauto; apply I).
+  assert (ST : stored s T) by (apply P5; lia).
+  pose proof (proj2 I) as DK. unfold disk_ok in DK. rewrite EHT in DK. destruct (DK Hp) as [D1 D2].
+  cbn [delete_seq]. rewrite (delete_single_stored s fails nh T [] M PC ST).
+  destruct (fails_at nh fails T).
+  - split; [apply st_refl|left; reflexivity].
+  - set (s1 := del1 s (h_id (c T)) T).
+    assert (J1 : Jt T (write s [WDelH (h_id (c T))])).
+    { split; [exact D2|]. intros O. apply on_disk_del_hdr in O. destruct O; congruence. }
+    assert (J2 : Jt T (write (write s [WDelH (h_id (c T))]) [WDelI T])).
+    { destruct J1 as [A B]. split; auto. }
+    assert (J3 : Jt T s1) by (apply (Jt_disk T _ _ (disk_eq_sym _ _ (proj2 (mem_pend_del _ T))) J2)).
+    destruct (del1_minv s T M ST) as [M1 _].
+    pose proof (delete_seq_steps2 (Jt T) (script_of fails) nh (Jt_disk T)) as L.
+    specialize (L (fun x n Jx => conj (proj1 Jx) (proj2 Jx))).
+    specialize (L (fun x Jx => ps_tail_gone x T (proj1 Jx) HT (proj2 Jx))).
+    specialize (L cnt s1 (T + 1) ([] ++ all_calls nh T)).
+    assert (JH : forall x m, T + 1 <= m -> inr m -> Jt T x -> Jt T (write x [WDelH (h_id (c m))])).
+    { intros x m _ _ [A B]. split; [exact A|]. intros O. apply on_disk_del_hdr in O. tauto. }
+    specialize (L JH M1 J3).
+    destruct (delete_seq s1 (script_of fails) nh (T + 1) cnt ([] ++ all_calls nh T)) as [[[s2 l2] a2] ok2].
+    destruct L as [T2 J4]. split; auto.
+    eapply st_write; [apply (ps_tail_gone _ T (proj1 J1) HT (proj2 J1))|].
+    eapply st_write; [apply (ps_tail_gone _ T (proj1 J2) HT (proj2 J2))|].
+    eapply st_mem; [apply mem_pend_del|exact T2].
+Qed.
+
+(** setTail after the loop: two pointer writes, the second gives a state related to the specification *)
+Lemma set_tail_steps_ps s1 sp2 a H s2 : pend_h s1 = ∅ ->
+  nb s1 a = Found (c a) -> headp s1 = Some (c H) -> inr H -> a <= H ->
+  d_head s1 = Some (h_id (c H)) ->
+  set_tail s1 a = (s2, true) -> inv s2 sp2 ->
+  ptrs_sound s1 \/ True -> steps ptrs_sound s1 s2.
+Proof.
+  intros Hp Hnb Hhd HH Hle Dh E I2 _.
+  assert (F : set_tail s1 a = (write (write (set_tailp s1 (Some (c a))) [WPutTail (h_id (c a))]) [WPutHead (h_id (c H))], true)).
+  { apply set_tail_form; auto. rewrite (@ch_height c U CH) by auto. apply N.ltb_ge. lia. }
+  rewrite F in E. injection E as E.
+  assert (Ps2 : ptrs_sound s2) by (apply (inv_ptrs_sound s2 sp2 I2); rewrite <- E; cbn; exact Hp).
+  set (y1 := write (set_tailp s1 (Some (c a))) [WPutTail (h_id (c a))]) in *.
+  eapply st_mem; [apply mem_set_tailp|]. eapply st_write.
+  - apply (ps_disk_pred s2); auto. rewrite <- E. unfold disk_eq. cbn. split_and!; auto.
+  - fold y1. rewrite <- E. apply steps_write1. rewrite E. exact Ps2.
+Qed.
+
 End chain.
